@@ -66,6 +66,18 @@ def split_args(text):
         ch = text[i]
         if ch in "'\"":
             q = text[i : i + 3] if text[i : i + 3] in ("'''", '"""') else ch
+            if len(q) == 1:
+                # a quote that its line neither closes nor continues is an ordinary character of raw text (an apostrophe)
+                j, closed = i + 1, False
+                while j < n and text[j] != "\n":
+                    if text[j] == q:
+                        closed = True
+                        break
+                    j += 2 if text[j] == "\\" else 1
+                if not closed and not (j < n + 1 and text[j - 1 : j + 1] == "\\\n"):
+                    cur.append(ch)
+                    i += 1
+                    continue
             j = i + len(q)
             while j < n and not text.startswith(q, j):
                 j += 2 if text[j] == "\\" else 1
@@ -268,7 +280,7 @@ def gen_call(rnd):
 
 
 BLOCK_LINES = ["ls -l", "x = 42", "echo $PATH", 'export PATH="yo:momma"', "pass", "a b c d", "if True:", "for x in range(6):", "with q as t:", "else:", "v = [1,\n     2,\n  3]",
-               "s = '''a\n  b\n'''", "print('it''s')", "$(raw (text) here)", "a = {1: 'x', 2: (3, 4)}", "import os; os.x", "not python at all !", "f!(x, y)", "# a comment", "", "q = \"#\" # c",
+               "s = '''a\n  b\n'''", "print('it''s')", "echo it's raw", 'say "hi there', "l'une\nl'autre", "don't # or can't", "x = f'{a} isn't", "$(raw (text) here)", "a = {1: 'x', 2: (3, 4)}", "import os; os.x", "not python at all !", "f!(x, y)", "# a comment", "", "q = \"#\" # c",
                # multi-line strings whose inner lines hold characters that str.splitlines() treats as line ends, and f-strings whose literal part ends a line
                "s = '''a\x0cb\n  c\n  d'''", "t = '''u\u2028v\nw'''", "r = '''x\x1cy\x85z\n'''", "a = f'''\n    foo\n'''", "b = f'''{k}\n  m\n''' + '''\n'''", "c = g(f'''\n{k}\n\n''')",
                # physical lines on which no token starts
@@ -340,6 +352,7 @@ def gen_with(rnd):
 REST = ["x + y", "bang! and more", "recurse() and more", "recurse[] and more", "recurse!() and more", "recurse$[] and more", "!!!", "(!)", "[!]", "!(ls)", '"!)"', "x", "",
         "if x: y", "import this", "a, b, c", "'q' \"w\"", "-n  --flag=1", "$HOME ${x} @(y)", "a   b\tc", "1 2 3.5 0x1f", "# not a comment" if False else "a:b", "{k: v}", "lambda: 0", "é ü", "a\n b",
         # outside the matcher's token whitelist (finding F07d)
+        "it's", "a' b c", 'q" r', "isn't it's", "(don't)",
         "(a (b))", "[a [b]] c", "x @(y)", "@$(w z)", 'f"a{b}"', "`a*`", "a\\b", "€ x", "a\xa0b", "${x} y",
         # inside it
         "a $(b c) d", "(a) [b]", "a;b | c", "p'/x' r'\\d'", "a ? b??", "0x1f 1e5 1_0"]
@@ -355,7 +368,7 @@ def gen_subproc(rnd):
     if rest[:1] in ("(", "[") and not bang.endswith(" "):
         bang += " "  # `!(` and `![` are single tokens: the macro marker must be separated from an opening bracket
     body = " ".join(cmd_words) + bang + rest + rnd.choice(["", " "])
-    if rnd.random() < 0.25 and rest.count("(") == rest.count(")") and "\n" not in rest:
+    if rnd.random() < 0.25 and rest.count("(") == rest.count(")") and "\n" not in rest and rest.count("'") % 2 == 0 and rest.count('"') % 2 == 0:
         # the macro inside an inject bracket of an ordinary command: the words after the inject bracket are split as usual again
         pre = [rnd.choice(["echo", "env", "xargs"])] + [rnd.choice(["-n", "a"]) for _ in range(rnd.randint(0, 1))]
         post = [rnd.choice(["-l", "c", "x.py", "'q r'", "$HOME"]) for _ in range(rnd.randint(0, 3))]
@@ -368,6 +381,22 @@ def gen_subproc(rnd):
     stmt = rnd.choice(["{}\n", "r = {}\n", "print({})\n"]).format(form)
     follow = rnd.choice(FOLLOW + [""])
     return {"kind": "subproc", "src": stmt + follow, "expected": [cmd_words + [rest.strip()]], "rest": rest, "follow": follow, "lines_before_follow": stmt.count("\n")}
+
+
+# a quote that its line neither closes nor continues is an ordinary character of raw text (an apostrophe): (argument text, expected arguments)
+APOSTROPHES = [
+    ("it's", ["it's"]), ("it's, b", ["it's", " b"]), ("don't, can't", ["don't, can't"]), ("5 o'clock,\n 6 o'clock", ["5 o'clock", "\n 6 o'clock"]), ('say "hi', ['say "hi']), ("a, (it's), [b\"]", ["a", " (it's)", " [b\"]"]),
+    ("l'une,\n l'autre, 'x'", ["l'une", "\n l'autre, 'x'"]), ("'", ["'"]), ("a', 'b', c'", ["a', 'b', c'"]), ("rb'x", ["rb'x"]), ("f(x'), y", ["f(x')", " y"]), ("x' # c\n", ["x' # c\n"]), ("'a' 'b, c", ["'a' 'b", " c"]),
+    ("\"\"\" ', \"\"\", q", ["\"\"\" ', \"\"\"", " q"]), ("\"\"\"\n'\n\"\"\", '", ["\"\"\"\n'\n\"\"\"", " '"]), ("it's, \\\n fine", ["it's, \\\n fine"]),  # (a backslash at the end of the line continues the literal the quote began)
+]
+
+
+def apostrophe_cases():
+    for inside, args in APOSTROPHES:
+        for head, tail in (("f!(", ")\n"), ("r = obj.m!(", ")\n"), ("if c:\n    v = g[0]!(", ")\n"), ("k(h()!(", "), b)\n")):
+            for follow in ("x = 1\n", "w = \"\"\"m\nl\"\"\"\n", "q = 'it''s'\n", ""):
+                stmt = head + inside + tail
+                yield {"kind": "call", "src": stmt + follow, "expected": [args], "follow": follow, "lines_before_follow": stmt.count("\n"), "ws_arg": False}
 
 
 def crlf_variant(case):
@@ -385,6 +414,10 @@ def run_shard(shard):
         run_case(acc, shard["replay"])
         return acc.dump()
     rnd = random.Random(f"{shard['seed']}:{shard.get('idx', 0)}")
+    if shard.get("idx", 0) == 0:
+        for case in apostrophe_cases():
+            acc.count("class_apostrophe_in_raw_text")
+            run_case(acc, case)
     for _ in range(shard["n"]):
         r = rnd.random()
         case = gen_call(rnd) if r < 0.5 else gen_with(rnd) if r < 0.8 else gen_subproc(rnd)
